@@ -23,6 +23,7 @@ Apply(kind, tok, old) ==
     [] kind = "chop"   -> IF old = <<>> THEN old ELSE SubSeq(old, 1, Len(old) - 1)
     [] kind = "same"   -> [k \in 1..Len(old) |-> tok]
     [] kind = "grow"   -> [k \in 1..(Len(old) + 1) |-> tok]
+    [] kind = "grow3"  -> [k \in 1..(Len(old) + 3) |-> tok]      \* a tail of several bytes: its write can be short
     [] OTHER -> old
 
 ApiEvents(r) == SelectSeq(r.events, LAMBDA e : e.ev \in {"call", "ret"} /\ e.op \in {"read", "write", "transform"})
